@@ -2,7 +2,7 @@
    (generic) and Inst_Walker.v / Inst_Dispatch.v (about the tables REGENERATED from /repo on this run). *)
 From Coq Require Import List NArith Bool Arith Lia String.
 From RG.Ast Require Import Tree Walker WalkerProof WalkSpec WfCheck.
-From RG.Engine Require Import Dispatch.
+From RG.Engine Require Import Dispatch RunState MatchEnv.
 From RGW Require Import Gen_AstSchema Gen_Walker Gen_WalkTags Gen_WalkTables Inst_Walker Inst_Dispatch.
 Import ListNotations.
 
@@ -75,6 +75,33 @@ Theorem C01_merge_bookkeeping_ok :
   gen_engine_load_first_direct_then_merge_after = true /\ gen_loadfile_merges_own_then_imported = true.
 Proof. exact gen_bookkeeping_ok. Qed.
 Print Assumptions C01_merge_bookkeeping_ok.
+
+(* the pattern of a rule (and the sub-pattern of its Contains() filters) is compiled with the import table of the rule's
+   OWN group: for every sequence of groups of a file -- with imports, without, in any order, whatever the loader was
+   left with by earlier files -- each rule is paired with exactly its group's Matcher.Import calls. (How the table is
+   produced per compilation is read from gogrepCompile / loadRuleGroup on this run; gogrep's resolution of a qualified
+   callee under a given table is gogrep's, and the rule-set runs compile the oracle's patterns under these tables.) *)
+Theorem C01_pattern_compiled_with_own_group_imports :
+  forall (R : Type) init (groups : list (imports * list R)),
+  compile_envs gen_env_policy init groups = spec_envs groups.
+Proof. exact gen_compile_envs_spec. Qed.
+Print Assumptions C01_pattern_compiled_with_own_group_imports.
+
+(* the rule loop enumerates the matches of a node out of its matcher state while the filters of the candidates already
+   found run Contains() searches: those run on a state that goes back to a different NewMatcherState() allocation
+   (newRunnerState / newRulesRunner read on this run), so every candidate is offered exactly once, in order, whatever
+   the searches leave in their scratch memory *)
+Theorem C01_submatch_leaves_enumeration_alone :
+  forall (V : Type) (cb : V -> list V) fuel (m : mem V),
+  (List.length (m (site_state main_site)) <= fuel)%nat ->
+  enum V fuel (site_state main_site) (site_state sub_site) m 0 cb = m (site_state main_site).
+Proof. intros V cb. exact (enum_distinct V _ _ cb (proj1 gen_site_states_differ)). Qed.
+Print Assumptions C01_submatch_leaves_enumeration_alone.
+
+Theorem C01_matcher_states_distinct :
+  states_distinct gen_matcher_state_flow gen_matchnode_sites main_site sub_site = true.
+Proof. exact gen_matcher_states_distinct. Qed.
+Print Assumptions C01_matcher_states_distinct.
 
 (* what the specification says per node *)
 Theorem C01_first_accepting_rule_wins :
@@ -154,3 +181,14 @@ Example c01_last_verdict_loop_refuted :
   map (fun p => r_id (fst p))
       (spec_node (fun _ => false) N demo_M [ {| r_id := 1; r_tag := 0 |}; {| r_id := 3; r_tag := 0 |} ] 5 0) = [1].
 Proof. vm_compute. auto. Qed.
+(* a loader that stores the import table only for groups that have imports compiles an import-less group's patterns
+   with its predecessor's table *)
+Example c01_sticky_imports_refuted :
+  compile_envs WriteSometimes [] [([("rand", "crypto/rand")], [1]); ([], [2; 3])]%string =
+  [(1, [("rand", "crypto/rand")]); (2, [("rand", "crypto/rand")]); (3, [("rand", "crypto/rand")])]%string /\
+  spec_envs [([("rand", "crypto/rand")], [1]); ([], [2; 3])]%string = [(1, [("rand", "crypto/rand")]); (2, []); (3, [])]%string.
+Proof. split; reflexivity. Qed.
+(* one matcher state for the rule loop and the Contains() searches: candidates are skipped and foreign ones offered *)
+Example c01_shared_matcher_state_refuted :
+  enum N 4 "s" "s" (fun _ => [1; 2; 3]) 0 (fun c => [7; 8]) = [1; 8].
+Proof. exact enum_aliased_refuted. Qed.
